@@ -2,6 +2,7 @@ import InfluxQL.Gen.Params
 import InfluxQL.Lemmas.Bind
 import InfluxQL.Lemmas.BindSim
 import InfluxQL.Lemmas.Inline
+import InfluxQL.Lemmas.InlineSimExpr
 /-!
 # C07 — bound parameters are substituted as single tokens, never re-lexed
 
@@ -492,5 +493,116 @@ example :
     (" AND b".toList ++ [eofRune]) ⟨'v', [], rfl, by decide⟩ (WordEnd.blank _)).1 "x'y".toList (by decide) (by simp [lookupParam])
   exact inline_equiv_text _ "v".toList (quoteString "x'y".toList) " AND b".toList _ _ _ "a =".toList [' '] 3 hv
     (by decide) (by decide +kernel) (by decide +kernel) (Or.inr ⟨by decide, by decide +kernel⟩)
+
+/-! ## Placeholder = written literal, at the level of the expression parser
+
+Lemmas/InlineSim*.lean: the run of `ParseExpr` on the template and the run on the inlined text are
+related by a simulation (same push-back count, ring entries equal after the substitution of
+`Parser.scan`, cursors before / at / behind the placeholder); every primitive (`Scan`, `ScanRegex`,
+`Unscan`, `peekRune`, `peekComment`) and every function up to the five mutually recursive ones
+preserves it. `parseRegex` is the one place where the runs part for a moment: in front of the
+placeholder the template run sees `$` and takes the `Scan` / `Unscan` path, the other run sees the
+literal's first rune — both answer "no regex here", one pushed-back token apart, and the next `Scan`
+brings them back in step. -/
+
+/-- **C07 (placeholder = written literal, expression parser).** The template's delivered runes are
+`a ++ ws ++ $name ++ kk`, those of the inlined text `a ++ ws ++ lit ++ kk` (`foldCR`: CR / CRLF read as
+LF), with `ws` white space, the scanner run on the template reaching the start of `ws` at a token
+boundary (after `n` tokens) or nothing preceding it (`a = []`), and `Inlinable` as at the token level
+(`name` bound to `v`; `lit` followed by `kk` scans as the single token `(v.tok, v.text)`; `kk` cannot
+continue a word). Side conditions of this level, all decidable: the text in front of the placeholder
+contains no `/` and no NUL (no regex literal, division or block comment there: `ScanRegex` would lex
+across the placeholder, see `inline_inside_regex_is_not_a_placeholder`); the value is not a regex; the
+literal does not begin with `/`, `-`, `:`, `.` or `$` (runes `parseRegex` and `parseSegmentedIdents`
+look for in the rune reader — true of every string, non-negative number, boolean and duration
+spelling). Then parsing the template and parsing the inlined text, with the same parameter map, give
+**the same expression tree**, or both fail with **the same error up to its position** (`SameResult`;
+`Fail.erase`: same message, same found / expected tokens; only line and column may differ). Calls, regex operators
+and parenthesised groups around or behind the placeholder are covered (`f(x, $p)`, `a =~ $p`). -/
+theorem inline_equiv_expr_partial (params : List (Str × BoundValue)) (name lit kk : Str) (v : BoundValue)
+    (template inlined a ws : Str) (n : Nat) (tbl : List (Char × Char))
+    (hv : Inlinable params name lit (kk ++ [eofRune]) v)
+    (hws : ∀ c ∈ ws, isWhitespace c = true)
+    (hT : foldCR template = a ++ (ws ++ ('$' :: (name ++ kk))))
+    (hI : foldCR inlined = a ++ (ws ++ (lit ++ kk)))
+    (hb : a = [] ∨ (ws ≠ [] ∧
+      (scanN n (Cursor.ofRunes template)).rest.length = (ws ++ ('$' :: (name ++ (kk ++ [eofRune])))).length))
+    (hpre : ∀ x ∈ a, x ≠ '/' ∧ x ≠ eofRune)
+    (hre : v.tok ≠ .REGEX)
+    (hlit : ∃ lh lt, lit = lh :: lt ∧ lh ≠ '/' ∧ lh ≠ '-' ∧ lh ≠ ':' ∧ lh ≠ '.' ∧ lh ≠ '$') :
+    SameResult (parseExprText template params tbl) (parseExprText inlined params tbl) := by
+  obtain ⟨lh, lt, rfl, hlh⟩ := hlit
+  have hc : ICtx.OK ⟨params, name, lh, lt, kk ++ [eofRune], ws, v⟩ := ⟨hv, hws, hre, hlh⟩
+  have h1 : (Cursor.ofRunes template).chars =
+      a ++ ICtx.t1 ⟨params, name, lh, lt, kk ++ [eofRune], ws, v⟩ := by
+    rw [chars_ofRunes, hT]; simp [ICtx.t1]
+  have h2 : (Cursor.ofRunes inlined).chars =
+      a ++ ICtx.t2 ⟨params, name, lh, lt, kk ++ [eofRune], ws, v⟩ := by
+    rw [chars_ofRunes, hI]; simp [ICtx.t2, ICtx.lit]
+  have hcr : CR ⟨params, name, lh, lt, kk ++ [eofRune], ws, v⟩ (Cursor.ofRunes template)
+      (Cursor.ofRunes inlined) := by
+    rcases hb with rfl | ⟨hne, hb⟩
+    · by_cases hw : ws = []
+      · subst hw
+        exact CR.at (by simpa [ICtx.t1] using h1) (by simpa [ICtx.t2] using h2)
+      · refine CR.pre [] hw h1 h2 (by simp) ⟨0, ?_⟩
+        show (Cursor.ofRunes template).rest.length = _
+        have := congrArg List.length h1
+        simpa [Cursor.chars] using this
+    · exact CR.pre a hne h1 h2 hpre ⟨n, hb⟩
+  exact parseExprText_inline hc template inlined tbl hcr
+
+/-- For a string value: `$name` (bound to the string `s`, no NUL / CR in it) against `QuoteString(s)`
+written in its place. -/
+theorem inline_equiv_expr_string (params : List (Str × BoundValue)) (name kk s : Str)
+    (template inlined a ws : Str) (n : Nat) (tbl : List (Char × Char))
+    (hn : ParamName name) (hk : WordEnd (kk ++ [eofRune])) (hex : Expressible s)
+    (hbound : lookupParam name params = some (ParamValue.string s).bound)
+    (hws : ∀ c ∈ ws, isWhitespace c = true)
+    (hT : foldCR template = a ++ (ws ++ ('$' :: (name ++ kk))))
+    (hI : foldCR inlined = a ++ (ws ++ (quoteString s ++ kk)))
+    (hb : a = [] ∨ (ws ≠ [] ∧
+      (scanN n (Cursor.ofRunes template)).rest.length = (ws ++ ('$' :: (name ++ (kk ++ [eofRune])))).length))
+    (hpre : ∀ x ∈ a, x ≠ '/' ∧ x ≠ eofRune) :
+    SameResult (parseExprText template params tbl) (parseExprText inlined params tbl) :=
+  inline_equiv_expr_partial params name (quoteString s) kk _ template inlined a ws n tbl
+    (inlinable_string params name _ s hn hk hex hbound) hws hT hI hb hpre
+    (by show Token.STRING ≠ .REGEX; decide)
+    ⟨'\'', _, rfl, by decide, by decide, by decide, by decide, by decide⟩
+
+/-- Why the text in front of the placeholder must not contain a regex literal that reaches over it:
+in `a =~ /x $p/` the `$p` is not a placeholder at all (`ScanRegex` reads it as part of the regex), so
+writing the literal there gives a different regex. The plain scanner does see a `$p` token after white
+space, i.e. the token-level hypotheses alone do not exclude this text. (Not a defect of the code.) -/
+theorem inline_inside_regex_is_not_a_placeholder :
+    exprOf ['a', ' ', '=', '~', ' ', '/', 'x', ' ', '$', 'p', '/'] [(['p'], .str ['q'])] = some ['a', ' ', '=', '~', ' ', '/', 'x', ' ', '$', 'p', '/'] ∧
+    exprOf ['a', ' ', '=', '~', ' ', '/', 'x', ' ', '\'', 'q', '\'', '/'] [(['p'], .str ['q'])] = some ['a', ' ', '=', '~', ' ', '/', 'x', ' ', '\'', 'q', '\'', '/'] := by
+  constructor <;> decide +kernel
+
+/-- Kernel-checked instances (p ↦ `x y`): `a = $p AND b > 1` and `a = 'x y' AND b > 1` give the same
+tree; so do `f(x, $p)` and `f(x, 'x y')` (a placeholder at the regex look-ahead point of a call); after
+a regex operator, `a =~ $p` and `a =~ 'x y'` both fail. -/
+theorem inline_examples :
+    exprOf ['a', ' ', '=', ' ', '$', 'p', ' ', 'A', 'N', 'D', ' ', 'b', ' ', '>', ' ', '1'] [(['p'], .str ['x', ' ', 'y'])] = some ['a', ' ', '=', ' ', '\'', 'x', ' ', 'y', '\'', ' ', 'A', 'N', 'D', ' ', 'b', ' ', '>', ' ', '1'] ∧
+    exprOf ['a', ' ', '=', ' ', '\'', 'x', ' ', 'y', '\'', ' ', 'A', 'N', 'D', ' ', 'b', ' ', '>', ' ', '1'] [(['p'], .str ['x', ' ', 'y'])] = some ['a', ' ', '=', ' ', '\'', 'x', ' ', 'y', '\'', ' ', 'A', 'N', 'D', ' ', 'b', ' ', '>', ' ', '1'] ∧
+    exprOf ['f', '(', 'x', ',', ' ', '$', 'p', ')'] [(['p'], .str ['x', ' ', 'y'])] = some ['f', '(', 'x', ',', ' ', '\'', 'x', ' ', 'y', '\'', ')'] ∧
+    exprOf ['f', '(', 'x', ',', ' ', '\'', 'x', ' ', 'y', '\'', ')'] [(['p'], .str ['x', ' ', 'y'])] = some ['f', '(', 'x', ',', ' ', '\'', 'x', ' ', 'y', '\'', ')'] ∧
+    exprOf ['a', ' ', '=', '~', ' ', '$', 'p'] [(['p'], .str ['x', ' ', 'y'])] = none ∧
+    exprOf ['a', ' ', '=', '~', ' ', '\'', 'x', ' ', 'y', '\''] [(['p'], .str ['x', ' ', 'y'])] = none := by
+  refine ⟨?_, ?_, ?_, ?_, ?_, ?_⟩ <;> decide +kernel
+
+-- non-vacuity: the hypotheses of `inline_equiv_expr_string` hold for the template `a = $p AND b > 1`,
+-- p ↦ `x y`, and the inlined text `a = 'x y' AND b > 1` (a = `a =`, ws = one blank, after 3 tokens)
+example :
+    ParamName ['p'] ∧ WordEnd ([' ', 'A', 'N', 'D', ' ', 'b', ' ', '>', ' ', '1'] ++ [eofRune]) ∧ Expressible ['x', ' ', 'y'] ∧
+    lookupParam ['p'] [(['p'], (ParamValue.string ['x', ' ', 'y']).bound)] = some (ParamValue.string ['x', ' ', 'y']).bound ∧
+    (∀ c ∈ [' '], isWhitespace c = true) ∧
+    foldCR ['a', ' ', '=', ' ', '$', 'p', ' ', 'A', 'N', 'D', ' ', 'b', ' ', '>', ' ', '1'] = ['a', ' ', '='] ++ ([' '] ++ ('$' :: (['p'] ++ [' ', 'A', 'N', 'D', ' ', 'b', ' ', '>', ' ', '1']))) ∧
+    foldCR ['a', ' ', '=', ' ', '\'', 'x', ' ', 'y', '\'', ' ', 'A', 'N', 'D', ' ', 'b', ' ', '>', ' ', '1'] = ['a', ' ', '='] ++ ([' '] ++ (quoteString ['x', ' ', 'y'] ++ [' ', 'A', 'N', 'D', ' ', 'b', ' ', '>', ' ', '1'])) ∧
+    ([' '] ≠ [] ∧ (scanN 3 (Cursor.ofRunes ['a', ' ', '=', ' ', '$', 'p', ' ', 'A', 'N', 'D', ' ', 'b', ' ', '>', ' ', '1'])).rest.length =
+      ([' '] ++ ('$' :: (['p'] ++ ([' ', 'A', 'N', 'D', ' ', 'b', ' ', '>', ' ', '1'] ++ [eofRune])))).length) ∧
+    (∀ x ∈ ['a', ' ', '='], x ≠ '/' ∧ x ≠ eofRune) :=
+  ⟨⟨'p', [], rfl, by decide⟩, WordEnd.blank _, by decide, by simp [lookupParam], by decide,
+    by decide +kernel, by decide +kernel, ⟨by decide, by decide +kernel⟩, by decide⟩
 
 end InfluxQL.C07
